@@ -12,6 +12,8 @@ Route:
 * `adjOK_render`: a local invariant on adjacent characters (`pairOK`: no `)(`, `oo`, `na`; every `-` is followed
   by a space or a digit), proved in continuation style (`render t ++ k`).  It gives: no bad token, the `)(`
   replacement and the `-c` rewriting are the identity.
+* `CK_render` / `negativeBaseSub_id`: every `^` of the string is immediately preceded by `)`, while a match of the
+  `-N^` pass (`negative_base_pattern`) needs a digit, `.` or blank before the `^`: that pass is the identity too.
 * `okChar_render`: the characters are ASCII and never `I`.
 * `words_render`: splitting the spaced string on `" "` and dropping the empty pieces gives `toksC`;
   `toksC_lower`: lower-casing `toksC` gives `sympyToks` (`X_k` becomes `x_k`).
@@ -749,6 +751,269 @@ theorem adjOK_render {pw : List Char} (hpw : pw = ['*', '*'] ∨ pw = ['^']) {co
     exact adjN 'a' (adjN 'b' (adjN 's' (adjN '('
       (iha _ (adjOK_pw hpw (ihb _ (adjOK_rparen hk hk2) (by simp))) (by simp)))))
 
+/-! ## the `-N^` rewriting (`negative_base_pattern`) is the identity on printed strings
+
+A match needs `-`, a number, optional blanks and then `^`, so the character before that `^` is a digit, `.` or
+a blank; in a printed string every `^` is immediately preceded by `)`. -/
+
+/-- every `^` (except possibly the first character) is immediately preceded by `)` -/
+def caretOK : List Char → Bool
+  | [] => true
+  | [_] => true
+  | c :: d :: r => (d != '^' || c == ')') && caretOK (d :: r)
+
+theorem caretOK_cons_cons (c d : Char) (r : List Char) :
+    caretOK (c :: d :: r) = ((d != '^' || c == ')') && caretOK (d :: r)) := rfl
+
+theorem caretOK_tail {c : Char} {r : List Char} (h : caretOK (c :: r) = true) : caretOK r = true := by
+  cases r with
+  | nil => rfl
+  | cons d r => rw [caretOK_cons_cons, Bool.and_eq_true] at h; exact h.2
+
+/-- `caretOK`, and the string does not start with `^` -/
+def CK (k : List Char) : Prop := caretOK k = true ∧ k.head? ≠ some '^'
+
+theorem CK_nil : CK [] := ⟨rfl, by simp⟩
+
+theorem CK_cons {c : Char} (hc : c ≠ '^' := by decide) {r : List Char} (h : CK r) : CK (c :: r) := by
+  refine ⟨?_, by simpa using hc⟩
+  cases r with
+  | nil => rfl
+  | cons d r =>
+    have hd : d ≠ '^' := by simpa using h.2
+    rw [caretOK_cons_cons, h.1]
+    simp [hd]
+
+theorem CK_append {a k : List Char} (ha : ∀ c ∈ a, c ≠ '^') (h : CK k) : CK (a ++ k) := by
+  induction a with
+  | nil => exact h
+  | cons c r ih =>
+    exact CK_cons (ha c List.mem_cons_self) (ih (fun d hd => ha d (List.mem_cons_of_mem _ hd)))
+
+theorem CK_pow {r : List Char} (h : CK r) : CK (')' :: '^' :: '(' :: r) := by
+  refine ⟨?_, by simp⟩
+  rw [caretOK_cons_cons, caretOK_cons_cons, (CK_cons (c := '(') (by decide) h).1]
+  decide
+
+theorem CK_render {consts : List String} (hc : ∀ c ∈ consts, constCharsOK c = true) (t : ETree)
+    (h : printOK consts t = true) : ∀ k, CK k → CK (render ['^'] consts t ++ k) := by
+  refine printOK_induction (consts := consts)
+    (motive := fun t => ∀ k, CK k → CK (render ['^'] consts t ++ k)) ?_ ?_ ?_ ?_ ?_ ?_ ?_ ?_ t h
+  · intro n p hp k hk
+    exact CK_append (fun c hc' => leafChar_ne ((leaf_spec hp hc).chars c hc') '^') hk
+  · intro n f a hf ih k hk
+    rw [render_un _ _ _ hf]
+    simp only [List.append_assoc, List.cons_append, List.nil_append]
+    exact CK_append (fun c hc' => tokChar_ne ((name_spec hf).chars c hc') '^')
+      (CK_cons (by decide) (ih _ (CK_cons (by decide) hk)))
+  · intro a b iha ihb k hk
+    rw [render_add]
+    simp only [List.append_assoc, List.cons_append]
+    exact iha _ (CK_cons (by decide) (CK_cons (by decide) (CK_cons (by decide) (ihb k hk))))
+  · intro a b iha ihb k hk
+    rw [render_sub]
+    simp only [List.append_assoc, List.cons_append, List.nil_append]
+    exact iha _ (CK_cons (by decide) (CK_cons (by decide) (CK_cons (by decide) (CK_cons (by decide)
+      (ihb _ (CK_cons (by decide) hk))))))
+  · intro a b iha ihb k hk
+    rw [render_mul]
+    simp only [List.append_assoc, List.cons_append, List.nil_append]
+    exact CK_cons (by decide) (iha _ (CK_cons (by decide) (CK_cons (by decide) (CK_cons (by decide)
+      (ihb _ (CK_cons (by decide) hk))))))
+  · intro a b iha ihb k hk
+    rw [render_div]
+    simp only [List.append_assoc, List.cons_append, List.nil_append]
+    exact CK_cons (by decide) (iha _ (CK_cons (by decide) (CK_cons (by decide) (CK_cons (by decide)
+      (ihb _ (CK_cons (by decide) hk))))))
+  · intro a b iha ihb k hk
+    rw [render_pow]
+    simp only [List.append_assoc, List.cons_append, List.nil_append]
+    exact CK_cons (by decide) (iha _ (CK_pow (ihb _ (CK_cons (by decide) hk))))
+  · intro a b iha ihb k hk
+    rw [render_spow]
+    simp only [List.append_assoc, List.cons_append, List.nil_append]
+    exact CK_cons (by decide) (CK_cons (by decide) (CK_cons (by decide) (CK_cons (by decide)
+      (iha _ (CK_pow (ihb _ (CK_cons (by decide) hk)))))))
+
+/-- no `)` among the characters -/
+def NP (a : List Char) : Prop := ∀ c ∈ a, c ≠ ')'
+
+theorem NP_nil : NP [] := by intro c hc; cases hc
+
+theorem NP_cons {c : Char} {a : List Char} (hc : c ≠ ')') (ha : NP a) : NP (c :: a) := by
+  intro d hd
+  rcases List.mem_cons.mp hd with rfl | hd
+  · exact hc
+  · exact ha d hd
+
+theorem NP_append {a b : List Char} (ha : NP a) (hb : NP b) : NP (a ++ b) := by
+  intro d hd
+  rcases List.mem_append.mp hd with hd | hd
+  · exact ha d hd
+  · exact hb d hd
+
+/-- a `^` preceded by a non-empty run without `)` violates `caretOK` -/
+theorem caretOK_contra {a : List Char} (hne : a ≠ []) (ha : NP a) (rest : List Char) :
+    caretOK (a ++ '^' :: rest) = false := by
+  induction a with
+  | nil => exact absurd rfl hne
+  | cons c r ih =>
+    cases r with
+    | nil =>
+      have hc : c ≠ ')' := ha c List.mem_cons_self
+      rw [List.cons_append, List.nil_append, caretOK_cons_cons]
+      simp [hc]
+    | cons d r =>
+      have := ih (by simp) (fun x hx => ha x (List.mem_cons_of_mem _ hx))
+      rw [List.cons_append] at this
+      rw [List.cons_append, List.cons_append, caretOK_cons_cons, this, Bool.and_false]
+
+theorem spanDigits'_spec (s : List Char) :
+    ∃ a, s = a ++ (spanDigits' s).2 ∧ a.length = (spanDigits' s).1 ∧ NP a := by
+  induction s with
+  | nil => exact ⟨[], rfl, rfl, NP_nil⟩
+  | cons c r ih =>
+    obtain ⟨a, h1, h2, h3⟩ := ih
+    by_cases hc : isReDigit c = true
+    · have e : spanDigits' (c :: r) = ((spanDigits' r).1 + 1, (spanDigits' r).2) := by
+        simp [spanDigits', hc]
+      refine ⟨c :: a, ?_, ?_, NP_cons ?_ h3⟩
+      · rw [e]; simp only [List.cons_append]; rw [← h1]
+      · rw [e]; simp [h2]
+      · rintro rfl; simp [isReDigit] at hc
+    · have e : spanDigits' (c :: r) = (0, c :: r) := by simp [spanDigits', hc]
+      exact ⟨[], by rw [e]; rfl, by rw [e]; rfl, NP_nil⟩
+
+theorem skipExponent_spec (r : List Char) : ∃ a, r = a ++ skipExponent r ∧ NP a := by
+  cases r with
+  | nil => exact ⟨[], rfl, NP_nil⟩
+  | cons c r0 =>
+    by_cases hc : (c == 'e' || c == 'E') = true
+    · have hcp : c ≠ ')' := by
+        rintro rfl; simp at hc
+      -- the optional sign
+      obtain ⟨sg, r', hr0, hsg, hr'⟩ : ∃ sg r', r0 = sg ++ r' ∧ NP sg ∧
+          skipExponent (c :: r0) = if (spanDigits' r').1 > 0 then (spanDigits' r').2 else c :: r0 := by
+        cases r0 with
+        | nil => exact ⟨[], [], rfl, NP_nil, by simp [skipExponent, hc]⟩
+        | cons d t =>
+          by_cases hp : d = '+'
+          · subst hp
+            exact ⟨['+'], t, rfl, NP_cons (by decide) NP_nil, by simp [skipExponent, hc]⟩
+          · by_cases hm : d = '-'
+            · subst hm
+              exact ⟨['-'], t, rfl, NP_cons (by decide) NP_nil, by simp [skipExponent, hc]⟩
+            · refine ⟨[], d :: t, rfl, NP_nil, ?_⟩
+              simp only [skipExponent, hc, ↓reduceIte]
+              split
+              · next heq => simp only [List.cons.injEq] at heq; exact absurd heq.1 hp
+              · next heq => simp only [List.cons.injEq] at heq; exact absurd heq.1 hm
+              · rfl
+      obtain ⟨a, h1, h2, h3⟩ := spanDigits'_spec r'
+      rw [hr']
+      split
+      · exact ⟨c :: (sg ++ a), by rw [hr0, List.cons_append, List.append_assoc, ← h1],
+          NP_cons hcp (NP_append hsg h3)⟩
+      · exact ⟨[], rfl, NP_nil⟩
+    · have e : skipExponent (c :: r0) = c :: r0 := by simp [skipExponent, hc]
+      exact ⟨[], by rw [e]; rfl, NP_nil⟩
+
+theorem tail_spec {r rest : List Char}
+    (h : (skipExponent r).dropWhile isReSpace = '^' :: rest) : ∃ b, r = b ++ '^' :: rest ∧ NP b := by
+  obtain ⟨a, h1, h2⟩ := skipExponent_spec r
+  refine ⟨a ++ (skipExponent r).takeWhile isReSpace, ?_, NP_append h2 ?_⟩
+  · rw [List.append_assoc, ← h, List.takeWhile_append_dropWhile]
+    exact h1
+  · intro c hc
+    have := List.all_eq_true.mp (List.all_takeWhile (p := isReSpace) (l := skipExponent r)) c hc
+    rintro rfl
+    simp [isReSpace] at this
+
+theorem matchNumberCaret_spec {s : List Char} {n : Nat} (h : matchNumberCaret s = some n) :
+    ∃ a rest, s = a ++ '^' :: rest ∧ a ≠ [] ∧ NP a := by
+  unfold matchNumberCaret at h
+  obtain ⟨a1, h1, h2, h3⟩ := spanDigits'_spec s
+  cases hsd : spanDigits' s with
+  | mk n1 r1 =>
+    rw [hsd] at h1 h2
+    simp only [hsd] at h
+    by_cases hn : n1 > 0
+    · have ha1 : a1 ≠ [] := by
+        intro e; rw [e] at h2; simp at h2; omega
+      simp only [hn, ↓reduceIte] at h
+      split at h
+      · cases h
+      · next r hr =>
+        split at hr
+        · next r2 =>
+          simp only [Option.some.injEq] at hr
+          obtain ⟨a2, g1, _, g3⟩ := spanDigits'_spec r2
+          split at h
+          · next rest hd =>
+            rw [← hr] at hd
+            obtain ⟨b, hb1, hb2⟩ := tail_spec hd
+            refine ⟨a1 ++ '.' :: (a2 ++ b), rest, ?_, by simp [ha1],
+              NP_append h3 (NP_cons (by decide) (NP_append g3 hb2))⟩
+            simp only at h1
+            rw [h1, g1, hb1]
+            simp
+          · cases h
+        · simp only [Option.some.injEq] at hr
+          split at h
+          · next rest hd =>
+            rw [← hr] at hd
+            obtain ⟨b, hb1, hb2⟩ := tail_spec hd
+            refine ⟨a1 ++ b, rest, ?_, by simp [ha1], NP_append h3 hb2⟩
+            simp only at h1
+            rw [h1, hb1]
+            simp
+          · cases h
+    · simp only [hn, ↓reduceIte] at h
+      split at h
+      · cases h
+      · next r hr =>
+        split at hr
+        · next r2 =>
+          obtain ⟨a2, g1, _, g3⟩ := spanDigits'_spec r2
+          cases hsd2 : spanDigits' r2 with
+          | mk n2 r3 =>
+            rw [hsd2] at g1
+            simp only [hsd2] at hr
+            split at hr
+            · simp only [Option.some.injEq] at hr
+              split at h
+              · next rest hd =>
+                rw [← hr] at hd
+                obtain ⟨b, hb1, hb2⟩ := tail_spec hd
+                refine ⟨'.' :: (a2 ++ b), rest, ?_, by simp,
+                  NP_cons (by decide) (NP_append g3 hb2)⟩
+                simp only at g1
+                rw [g1, hb1]
+                simp
+              · cases h
+            · cases hr
+        · cases hr
+
+theorem negativeBaseGo_id {s : List Char} (h : caretOK s = true) :
+    ∀ p2 p1, negativeBaseGo 0 p2 p1 s = s := by
+  induction s with
+  | nil => intro p2 p1; rfl
+  | cons c r ih =>
+    intro p2 p1
+    have hr := caretOK_tail h
+    have hm : matchNumberCaret r = none := by
+      cases hm : matchNumberCaret r with
+      | none => rfl
+      | some n =>
+        obtain ⟨a, rest, e, hne, hnp⟩ := matchNumberCaret_spec hm
+        rw [e, caretOK_contra hne hnp] at hr
+        cases hr
+    simp only [negativeBaseGo, hm]
+    split <;> rw [ih hr]
+
+theorem negativeBaseSub_id {s : List Char} (h : caretOK s = true) : negativeBaseSub s = s :=
+  negativeBaseGo_id h none none
+
 /-! ## the characters of the printed string -/
 
 /-- the characters of a printed string -/
@@ -989,7 +1254,9 @@ theorem tokenizeChars_render {consts : List String} (hc : ∀ c ∈ consts, cons
   unfold tokenizeChars
   rw [hbad, h1]
   simp only [Bool.false_eq_true, if_false]
-  rw [negativeSub_id hadj2, h2]
+  rw [negativeSub_id hadj2, negativeBaseSub_id (by
+    have := (CK_render hc t h [] CK_nil).1
+    simpa using this), h2]
   rw [show (splitGo [' '] 0 (nonUnarySub (render ['^'] consts t)) []).filter (fun t => !t.isEmpty) =
     words (nonUnarySub (render ['^'] consts t)) from rfl, h3]
   rfl
